@@ -297,7 +297,7 @@ def apply_model(m: AclM, op: dict) -> Expect:  # noqa: C901
                     if pm is not None and pm.op == op["operator"]:
                         pm.operands = tuple(op["items"])
         return Expect(m)
-    if k == "set_note":
+    if k in ("set_note", "scribble_ipnets", "foreign_parse"):
         return Expect(m)
     if k == "set_remark_text":
         if n:
